@@ -632,14 +632,40 @@ def _same_arguments(
 
     return all(
         (
-            (
-                a1.name.value == a2.name.value
-                and type(a1.value) == type(a2.value)  # noqa: E721
-                and a1.value.value == a2.value.value  # type: ignore
-            )
+            a1.name.value == a2.name.value and _same_value(a1.value, a2.value)
             for a1, a2 in zip(s1, s2)
         )
     )
+
+
+def _same_value(value_1: _ast.Node, value_2: _ast.Node) -> bool:
+    """
+    Structural equality of two argument values (locations are ignored).
+    """
+    if type(value_1) != type(value_2):  # noqa: E721
+        return False
+
+    if isinstance(value_1, _ast.NullValue):
+        return True
+
+    if isinstance(value_1, _ast.Variable):
+        return value_1.name.value == cast(_ast.Variable, value_2).name.value
+
+    if isinstance(value_1, _ast.ListValue):
+        items_1, items_2 = value_1.values, cast(_ast.ListValue, value_2).values
+        return len(items_1) == len(items_2) and all(
+            _same_value(i1, i2) for i1, i2 in zip(items_1, items_2)
+        )
+
+    if isinstance(value_1, _ast.ObjectValue):
+        fields_1 = value_1.fields
+        fields_2 = cast(_ast.ObjectValue, value_2).fields
+        return len(fields_1) == len(fields_2) and all(
+            f1.name.value == f2.name.value and _same_value(f1.value, f2.value)
+            for f1, f2 in zip(fields_1, fields_2)
+        )
+
+    return value_1.value == value_2.value  # type: ignore
 
 
 def _types_conflict(type_1: GraphQLType, type_2: GraphQLType) -> bool:
